@@ -230,6 +230,36 @@ func assertChain(info *types.Info, d *ast.FuncDecl, call *ast.CallExpr) (typeSwi
 		b, bok := keyOf(info, e)
 		return aok && bok && a == b
 	}
+	// earlier siblings that leave on a successful assertion of the same subject
+	siblings := func(holder []ast.Stmt, first ast.Stmt) {
+		for k, st := range holder {
+			if st == first {
+				break
+			}
+			e, ok := st.(*ast.IfStmt)
+			if !ok || e.Else != nil || len(e.Body.List) == 0 || !stmtLeaves(e.Body.List[len(e.Body.List)-1]) {
+				continue
+			}
+			var subj ast.Expr
+			var t types.Type
+			var okObj types.Object
+			if e.Init != nil {
+				subj, t, okObj = assertOf(e.Init)
+			} else if k > 0 {
+				subj, t, okObj = assertOf(holder[k-1])
+			}
+			if subj != nil && isOk(e.Cond, okObj) {
+				if a, aok := keyOf(info, subj); aok {
+					if ti.subject == nil {
+						ti.subject = subj
+					}
+					if b, bok := keyOf(info, ti.subject); bok && a == b {
+						add(t)
+					}
+				}
+			}
+		}
+	}
 	// innermost if that holds the abort
 	for i := len(path) - 1; i >= 1; i-- {
 		ifs, ok := path[i].(*ast.IfStmt)
@@ -305,32 +335,20 @@ func assertChain(info *types.Info, d *ast.FuncDecl, call *ast.CallExpr) (typeSwi
 		default:
 			return ti, false
 		}
-		// earlier siblings that leave on a successful assertion of the same subject
-		for k, st := range holder {
-			if st == first {
-				break
-			}
-			e, ok := st.(*ast.IfStmt)
-			if !ok || e.Else != nil || len(e.Body.List) == 0 || !stmtLeaves(e.Body.List[len(e.Body.List)-1]) {
-				continue
-			}
-			var subj ast.Expr
-			var t types.Type
-			var okObj types.Object
-			if e.Init != nil {
-				subj, t, okObj = assertOf(e.Init)
-			} else if k > 0 {
-				subj, t, okObj = assertOf(holder[k-1])
-			}
-			if subj != nil && isOk(e.Cond, okObj) {
-				if a, aok := keyOf(info, subj); aok {
-					if b, bok := keyOf(info, ti.subject); bok && a == b {
-						add(t)
-					}
-				}
-			}
-		}
+		siblings(holder, first)
 		return ti, ti.subject != nil && len(ti.cases) > 0
+	}
+	// form C: the abort stands at the end of a statement list, after siblings that each leave on a successful assertion
+	for i := len(path) - 1; i >= 1; i-- {
+		es, ok := path[i].(*ast.ExprStmt)
+		if !ok {
+			continue
+		}
+		if blk, ok := path[i-1].(*ast.BlockStmt); ok {
+			siblings(blk.List, es)
+			return ti, ti.subject != nil && len(ti.cases) > 0
+		}
+		break
 	}
 	return ti, false
 }
